@@ -8,6 +8,7 @@ import (
 	"time"
 
 	"github.com/EdgeCast/vflow/ipfix"
+	"github.com/EdgeCast/vflow/mirror"
 	"github.com/EdgeCast/vflow/netflow/v9"
 )
 
@@ -25,6 +26,8 @@ import (
 //verif:replace github.com/EdgeCast/vflow/netflow/v9.GetCache verifGetCacheV9
 //verif:replace (github.com/EdgeCast/vflow/ipfix.MemCache).Dump verifDumpIPFIX
 //verif:replace (github.com/EdgeCast/vflow/netflow/v9.MemCache).Dump verifDumpV9
+//verif:replace github.com/EdgeCast/vflow/mirror.NewRawConn verifNewRawConn
+//verif:replace (*github.com/EdgeCast/vflow/mirror.Conn).Send verifSend
 
 type verifRead struct {
 	ok   bool
@@ -58,6 +61,9 @@ func verifReadFromUDP(c *net.UDPConn, b []byte) (int, *net.UDPAddr, error) {
 		verifReads = append(verifReads, verifRead{ok: false})
 		return 0, nil, errVerifRead
 	}
+	// the kernel truncates a datagram to the buffer it is given: a datagram of up to
+	// max-udp-size octets arrives whole only in a buffer of at least that length
+	verifAssert(len(b) >= verifPoolSize, "buffer cycle: the receive loop reads into a buffer of the full max-udp-size (a shorter one, handed back to the pool by a worker or a mirror sender, truncates the next datagram)")
 	n := verifNondetInt()
 	verifAssume(verifAll(n >= 0, n <= len(b)))
 	a := &net.UDPAddr{IP: net.IP{192, 0, 2, byte(len(verifReads))}, Port: 4739}
@@ -88,6 +94,7 @@ func verifRunSetup() {
 	verifReads = nil
 	verifRounds = verifParam("rounds", 3)
 	verifLoadedFrom, verifDumpedTo = nil, nil
+	verifMirrorSent = 0
 	verifPoolSize = 32
 	verifPoolBufs = nil
 	opts = NewOptions()
@@ -177,5 +184,105 @@ func VerifShutdownPairing() {
 	v := NewNetflowV9()
 	v.shutdown()
 	verifAssert(verifAll(len(verifDumpedTo) == 2, verifDumpedTo[1] == "v9:/tmp/v9.cache"), "C11: v9 shutdown dumps the v9 cache to the file start-up loads it from")
+	verifReach("end")
+}
+
+// ---- the life of a receive buffer (C16 / C13 / C12) -----------------------------------
+// One short datagram goes through the real worker (mirroring on where the protocol has it)
+// and the real mirror sender; the buffers they hand back are in the (adversarial) pool when
+// the real receive loop then runs: whichever of them it gets, it must be able to take a
+// datagram of the full max-udp-size.
+
+var (
+	verifMirrorSent int
+	errVerifStop    = errors.New("verif: stop after the last datagram")
+)
+
+func verifNewRawConn(raddr net.IP) (mirror.Conn, error) { return mirror.Conn{}, nil }
+
+func verifSend(c *mirror.Conn, b []byte) error {
+	verifMirrorSent++
+	return errVerifStop
+}
+
+// a datagram of n <= size octets that is not of the protocol's version (the template caches
+// are not set up here): b[:n] of a full-size buffer, as the receive loop hands it over
+func verifShortDatagram(size int) []byte {
+	n := verifNondetInt()
+	verifAssume(verifAll(n >= 0, n <= size))
+	b := verifNondetBytesCap(n, size)
+	if n >= 2 {
+		verifAssume(verifAll(b[0] == 0xff, b[1] == 0xff))
+	}
+	return b
+}
+
+func VerifBufferCycleIPFIX() {
+	verifRunSetup()
+	ipfixMirrorEnabled = verifCase(2) == 1
+	ipfixUDPCh = make(chan IPFIXUDPMsg, 8)
+	ipfixMCh = make(chan IPFIXUDPMsg, 2)
+	ipfixMQCh = make(chan []byte, 2)
+	ipfixUDPCh <- IPFIXUDPMsg{&net.UDPAddr{IP: net.IP{192, 0, 2, 9}}, verifShortDatagram(verifPoolSize)}
+	close(ipfixUDPCh)
+	i := NewIPFIX()
+	i.ipfixWorker(make(chan struct{}))
+	if ipfixMirrorEnabled {
+		verifAssert(len(ipfixMCh) == 1, "C16: the worker queues a copy of the datagram for mirroring")
+		mirrorIPFIX(net.ParseIP("198.51.100.1"), 4739, ipfixMCh)
+		verifAssert(verifMirrorSent == 1, "C16: the mirror sender emits the queued datagram")
+	}
+	ipfixUDPCh = make(chan IPFIXUDPMsg, 8)
+	verifStop = func() { i.stop = true }
+	i.run()
+	verifReach("end")
+}
+
+func VerifBufferCycleSFlow() {
+	verifRunSetup()
+	sFlowMirrorEnabled = verifCase(2) == 1
+	sFlowUDPCh = make(chan SFUDPMsg, 8)
+	sFlowMCh = make(chan SFUDPMsg, 2)
+	sFlowMQCh = make(chan []byte, 2)
+	sFlowUDPCh <- SFUDPMsg{&net.UDPAddr{IP: net.IP{192, 0, 2, 9}}, verifShortDatagram(verifPoolSize)}
+	close(sFlowUDPCh)
+	s := NewSFlow()
+	s.sFlowWorker(make(chan struct{}))
+	if sFlowMirrorEnabled {
+		verifAssert(len(sFlowMCh) == 1, "C16: the worker queues a copy of the datagram for mirroring")
+		mirrorSFlow(net.ParseIP("198.51.100.1"), 6343, sFlowMCh)
+		verifAssert(verifMirrorSent == 1, "C16: the mirror sender emits the queued datagram")
+	}
+	sFlowUDPCh = make(chan SFUDPMsg, 8)
+	verifStop = func() { s.stop = true }
+	s.run()
+	verifReach("end")
+}
+
+func VerifBufferCycleV9() {
+	verifRunSetup()
+	netflowV9UDPCh = make(chan NetflowV9UDPMsg, 8)
+	netflowV9MQCh = make(chan []byte, 2)
+	netflowV9UDPCh <- NetflowV9UDPMsg{&net.UDPAddr{IP: net.IP{192, 0, 2, 9}}, verifShortDatagram(verifPoolSize)}
+	close(netflowV9UDPCh)
+	i := NewNetflowV9()
+	i.netflowV9Worker(make(chan struct{}))
+	netflowV9UDPCh = make(chan NetflowV9UDPMsg, 8)
+	verifStop = func() { i.stop = true }
+	i.run()
+	verifReach("end")
+}
+
+func VerifBufferCycleV5() {
+	verifRunSetup()
+	netflowV5UDPCh = make(chan NetflowV5UDPMsg, 8)
+	netflowV5MQCh = make(chan []byte, 2)
+	netflowV5UDPCh <- NetflowV5UDPMsg{&net.UDPAddr{IP: net.IP{192, 0, 2, 9}}, verifShortDatagram(verifPoolSize)}
+	close(netflowV5UDPCh)
+	i := NewNetflowV5()
+	i.netflowV5Worker(make(chan struct{}))
+	netflowV5UDPCh = make(chan NetflowV5UDPMsg, 8)
+	verifStop = func() { i.stop = true }
+	i.run()
 	verifReach("end")
 }
